@@ -30,7 +30,7 @@ use std::time::Duration;
 pub fn config_with_date() -> nitrogql_config_file::Config {
     let mut cfg = pipeline::default_config();
     cfg.generate.r#type.scalar_types.insert("Date".into(), nitrogql_config_file::ScalarTypeConfig::Single("string".into()));
-    cfg
+    pipeline::via_config_text(&cfg)
 }
 
 /// the schema declaration module, loaded once
